@@ -2,7 +2,7 @@
 # confirm + run quick check for seeded changes: tools/seed_pipeline.sh C07/m1 C07/m2 ...   (results appended to /tmp/seed/results.txt)
 for x in "$@"; do
   id=${x%%/*}; d=${SEED_OUT:-/tmp/seed/out}/$x
-  exec 8>/tmp/confirm.lock; flock 8
+  exec 8>/tmp/confirm.lock.$(basename ${CONFIRM_WT:-/tmp/confirm}); flock 8
   c=$(/verif/tools/confirm_seed.sh $d 2>&1 | tail -n 4)
   flock -u 8
   r=$(/verif/tools/run_seed.sh $d/patch.diff $id quick 2>&1 | head -n 6)
